@@ -12,10 +12,10 @@ ASSUMPTIONS = [
     "truncation: the node-hash list is cut to every length m in [0, depth]; acceptance is compared with 'the first differing bit lies within the first m levels'",
 ]
 BOUNDS = {
-    "quick": "key_size 1: streams of 1 update after 0 or 1 prior writes and of 2 updates on a fresh tree (all kind combinations); every truncation length 0..8 of one update",
+    "quick": "key_size 1: streams of 1 update after 0 or 1 prior writes and of 2 updates on a fresh tree (all kind combinations); every truncation length 0..8 of one update; update() in isolation (arbitrary branch / update hashes, no tree) for key sizes 1, 2 and 8",
     "thorough": "key_size 1: all streams of <= 2 updates and three kind patterns of 3 updates; key_size 2: streams of 1 update and two kind patterns of 2 updates, truncation lengths 0..16",
 }
-OUTSIDE = "key sizes above 2, longer streams, update lists longer than the depth"
+OUTSIDE = "in-sync-with-a-tree claims for key sizes above 2 (update() in isolation is checked up to 8 / 16 bytes), longer streams, update lists longer than the depth"
 
 
 def obligations(tier):
@@ -35,6 +35,8 @@ def obligations(tier):
     if tier == "quick":
         streams(1, 1, (0, 2), ([], [2]), (0, 2))
         streams(1, 2, (2,), ([],), (2,))
+        for ks in (1, 2, 8):
+            add("update alone (no tree): only the sibling at the first differing bit changes", "h_update_alone", "b_update_alone", ks=ks)
         for m in range(0, 9):
             add("truncated update list: accepted iff deep enough, otherwise ValidationError and proof unchanged", "h_proof_trunc", "b_proof_trunc", ks=1, dshape=0, vshape=2, m=m)
     else:
@@ -45,6 +47,8 @@ def obligations(tier):
         streams(2, 1, (0, 2), ([], [2]), (0, 2))
         for kinds in ([False, False], [False, True]):
             add(sync, "h_proof_sync", "b_proof_sync", ks=2, dshape=2, preshapes=[], vshapes=[0 if kd else 2 for kd in kinds], kinds=kinds, t=3000)
+        for ks in (1, 2, 4, 8, 16):
+            add("update alone (no tree): only the sibling at the first differing bit changes", "h_update_alone", "b_update_alone", ks=ks)
         for ks in (1, 2):
             for m in range(0, 8 * ks + 1):
                 for d, v in ((0, 2), (2, 0)):
